@@ -148,6 +148,9 @@ pub fn run(cfg: &RunCfg) -> Report {
     let mut rng = Rng::new(cfg.seed ^ 0x5B12);
     let mut reqs = Vec::new();
     let mut tie = Vec::new();
+    // second tie: the use lines as the Lean model of generate_module's import closure renders them
+    let mut use_reqs: Vec<String> = Vec::new();
+    let mut use_meta: Vec<(usize, usize, Vec<String>)> = Vec::new();
     for (si, mods) in sets.iter().enumerate() {
         rep.evaluations += 1;
         let case = || json!({"set": set_to_json(&[mods.clone()])});
@@ -200,6 +203,11 @@ pub fn run(cfg: &RunCfg) -> Report {
             // (b) use lines
             let exp = expected_uses(mods, j);
             let seen = observed_uses(fb);
+            // model tie on the clauses as written (the linker may append governing types of imported values
+            // to a clause: the model line must then be a prefix of the observed one)
+            let lines: Vec<String> = fb.iter().filter(|(id, t)| id == "use" && t.replace(' ', "").starts_with("usesuper::")).map(|(_, t)| t.split_whitespace().collect::<String>()).collect();
+            use_reqs.push(format!("c12use f {}", sx_list(m.imports.iter().map(|(p, syms)| format!("( {} {} )", hex(p), sx_list(syms.iter().map(|x| hex(x))))))));
+            use_meta.push((si, j, lines));
             rep.count(if exp.is_empty() { "uses:none" } else { "uses:some" });
             if exp != seen {
                 rep.unsat("", false, json!({"why": format!("module {}: IMPORTS {:?} should give use lines {:?}, generated {:?}", m.name, m.imports, exp, seen), "case": case()}));
@@ -265,6 +273,28 @@ pub fn run(cfg: &RunCfg) -> Report {
                 }
             }
         }
+    }
+    match run_driver(&use_reqs) {
+        Ok(ans) => {
+            for (a, (si, j, lines)) in ans.iter().zip(use_meta.iter()) {
+                let m = &sets[*si][*j];
+                let model: Vec<(String, Vec<String>)> = if a == "-" { vec![] } else {
+                    a.split(';').map(|l| { let (md, syms) = l.split_once(':').unwrap_or((l, "")); (md.to_string(), syms.split(',').filter(|x| !x.is_empty()).map(String::from).collect()) }).collect()
+                };
+                // observed: `usesuper::m::{A,B};`
+                let observed: Vec<(String, Vec<String>)> = lines.iter().filter_map(|l| {
+                    let rest = l.strip_prefix("usesuper::")?.trim_end_matches(';');
+                    let (md, syms) = rest.split_once("::")?;
+                    Some((md.to_string(), syms.trim_start_matches('{').trim_end_matches('}').split(',').filter(|x| !x.is_empty()).map(String::from).collect()))
+                }).collect();
+                let ok = model.len() <= observed.len() && model.iter().zip(observed.iter()).all(|((mm, ms), (om, os))| mm == om && (ms == &vec!["*".to_string()] && os == &vec!["*".to_string()] || os.len() >= ms.len() && &os[..ms.len()] == ms.as_slice()));
+                rep.count("use-lines:model-compared");
+                if !ok {
+                    rep.disagree(json!({"difference": format!("module {}: the import model renders {:?}, generated {:?}", m.name, model, observed), "case": {"set": set_to_json(&[sets[*si].clone()])}}));
+                }
+            }
+        }
+        Err(e) => rep.harness_errors.push(e),
     }
     match run_driver(&reqs) {
         Ok(ans) => {
